@@ -497,6 +497,25 @@ func c08Facts(e *env) (string, error) {
 	}
 	fmt.Fprintf(&sb, "/-- body of `(STDEIP155Signer).Sender` -/\ndef eip155SenderBody : List String := %s\n\n", c08Strs(stmts))
 
+	// the V arithmetic the hand model mirrors (big.Int code, outside go2lean's integer subset): statement lists
+	for _, b := range []struct{ lean, rel, recv, fn string }{
+		{"isProtectedVBody", "types/sign.go", "", "isProtectedV"},
+		{"deriveSignParamBody", "types/sign.go", "", "DeriveSignParam"},
+		{"signdataRecoverBody", "types/sign.go", "signdata", "recover"},
+		{"txdataRecoverBody", "types/transaction.go", "txdata", "recover"},
+		{"recoverPlainBody", "types/sign.go", "", "recoverPlain"},
+	} {
+		bfd, err := e.funcDecl(b.rel, b.recv, b.fn)
+		if err != nil {
+			return "", err
+		}
+		var st []string
+		for _, x := range bfd.Body.List {
+			st = append(st, c08Src(e, x))
+		}
+		fmt.Fprintf(&sb, "/-- body of `%s` (%s), statement by statement -/\ndef %s : List String := %s\n\n", b.fn, b.rel, b.lean, c08Strs(st))
+	}
+
 	// recoverPlain: the call of ValidateSignatureValues
 	a, err = c08One(e, "types/sign.go", "", "recoverPlain", "crypto.ValidateSignatureValues")
 	if err != nil {
